@@ -169,6 +169,7 @@ G_ODD = ChoiceGrammar("odd", (
     lambda: ([],), lambda: (1,), lambda: [[]], lambda: [1], lambda: None, lambda: {"a": []}, lambda: {"a": 1}, lambda: [], lambda: (), lambda: {},
     _aliased_list, _aliased_dict, lambda: [set()], lambda: {"a": 1, "b": "s"}, lambda: set(), lambda: [{"a": 1}, []],
 ))
+G_ODD12 = ChoiceGrammar("odd12", G_ODD.factories[:12])  # (quick pipeline variant)
 # key b carries an int in one dict and a str in another: the same key with different value types across merges
 G_NESTED_ALT = None  # set below (needs NestedGrammar)
 # two different class objects inside containers; scalars next to them
